@@ -21,7 +21,7 @@ MANIFEST = {
             "triple of linear or reciprocal units of one category of the table, for all valid v with 2^-40 <= |v| <= 2^40 and, "
             "as separate _wide theorems, 2^-800 <= |v| <= 2^800 "
             "(temperature: every finite |v| <= 2^1000); the implementation-level search uses exactly the proved bounds as "
-            "tolerances (exact rational comparison; the temperature constants are compared with the Coq tables every run)",
+            "tolerances (exact rational comparison; the temperature constants are compared with the Coq tables every run); round 7: SESSIONS stream (sequences ok / rejected-on-target / rejected-on-source / category mismatch / ok again in ONE process, each conversion compared with the same conversion alone: history independence of convert) after seed C17-11",
     "note": "trusted: Coq kernel + vm_compute; harness dump-units (reflective dump of get_all_units()); the hand "
             "transcription of resolve_unit/convert (validated by the UNITS/RESOLVE/LOWER/BUILTIN correspondence streams); "
             "Rust to_lowercase modelled only on ASCII + the dumped non-ASCII characters; PARTIAL: the float theorems for "
